@@ -5,6 +5,7 @@ package sample
 
 import (
 	"bytes"
+	"debug/pe"
 	"encoding/binary"
 	"fmt"
 	"io"
@@ -147,7 +148,90 @@ func (o *Outer) StoreBlob(name string, p []byte) int {
 	return o.Store(name, m) + o.Sink.Take(name, quiet{N: 1})
 }
 
+// ---- session 6: a buffer that is a FIELD, section readers, io.MultiReader, ReadFrom, a struct of debug/pe -------
+
+type Box struct {
+	Dir  pe.DataDirectory
+	n    int
+	buf  *bytes.Buffer
+	head *io.SectionReader
+	src  io.ReaderAt
+}
+
+func NewBox(head []byte, n int) *Box {
+	return &Box{n: n, buf: bytes.NewBuffer(nil), head: fromBytes(head), src: bytes.NewReader(head)}
+}
+
+func fromBytes(b []byte) *io.SectionReader {
+	return io.NewSectionReader(bytes.NewReader(b), 0, int64(len(b)))
+}
+
+func again(sr *io.SectionReader) *io.SectionReader { return io.NewSectionReader(sr, 0, sr.Size()) }
+
+// writes through a buffer field (so it returns a new receiver), uint32 of an int (wraps), binary.Write of a struct
+// of the standard library, a section reader over the bytes written
+func (b *Box) Add(x []byte) error {
+	b.buf.Write(x)
+	if b.Dir.VirtualAddress != 0 {
+		b.Dir.Size += uint32(len(x))
+	} else {
+		b.Dir.VirtualAddress = uint32(b.n)
+		b.Dir.Size = uint32(len(x))
+	}
+	var w bytes.Buffer
+	if err := binary.Write(&w, binary.LittleEndian, &b.Dir); err != nil {
+		return err
+	}
+	b.head = fromBytes(w.Bytes())
+	return nil
+}
+
+// only reads the receiver: no new receiver is returned
+func (b *Box) All() []byte {
+	var out bytes.Buffer
+	out.ReadFrom(io.MultiReader(again(b.head), bytes.NewReader(b.buf.Bytes())))
+	return out.Bytes()
+}
+
+// a reader over the field's bytes, k bytes read into a buffer made for the call
+func (b *Box) Skip(k int) int {
+	r := bytes.NewReader(b.buf.Bytes())
+	r.Read(make([]byte, k))
+	return r.Len()
+}
+
 // ---- must be REJECTED ---------------------------------------------------------------------------
+
+// a section reader that does not start at offset 0
+func Window(b []byte) *io.SectionReader {
+	return io.NewSectionReader(bytes.NewReader(b), 1, int64(len(b)))
+}
+
+// Read on a section reader: its position is not part of the model
+func (b *Box) Peek() int {
+	buf := make([]byte, 2)
+	n, _ := b.head.Read(buf)
+	return n
+}
+
+// a section reader that is kept in a field is handed to a function that reads from it: its position would move
+func (b *Box) Drain() uint32 {
+	v, _, _ := Full(b.head)
+	return v
+}
+
+// ... while one made for the call may be (what is left of it cannot be observed): translated
+func (b *Box) DrainCopy() uint32 {
+	v, _, _ := Full(again(b.head))
+	return v
+}
+
+// a method of an io.ReaderAt reference
+func (b *Box) At() int {
+	buf := make([]byte, 1)
+	n, _ := b.src.ReadAt(buf, 0)
+	return n
+}
 
 // a plain io.Reader may deliver less than is there
 func ShortRead(r io.Reader) int {
